@@ -24,7 +24,7 @@ ASSUMPTIONS = [
     "datetime.fromisoformat acceptance for the shapes the grammar derives: year 0001-9999, calendar-valid day, 00-23:00-59:00-59, offset hh 00-23 mm 00-59 (cross-checked on the boundary pool in B1)",
     "C04 (scalar round trip) and C08 (member contracts) are used as lemmas for CONST/ENUM",
 ]
-TRUSTED_BASE = ["verif.reglang", "verif.gbnf"]
+TRUSTED_BASE = ["verif.reglang", "verif.gbnf", "verif.pyvc", "z3"]
 GB = "octave_mcp.core.gbnf_compiler"
 FUNCS = [f"{GB}:GBNFCompiler.compile_chain", f"{GB}:GBNFCompiler._compile_type", f"{GB}:GBNFCompiler._compile_date", f"{GB}:GBNFCompiler._compile_iso8601", f"{GB}:GBNFCompiler._compile_const", f"{GB}:GBNFCompiler._compile_enum", "octave_mcp.core.lexer:tokenize", "octave_mcp.core.constraints:ConstraintChain.evaluate"]
 
